@@ -124,8 +124,9 @@ pub fn any_finite<T: Real>(a: &[Complex<T>]) -> bool {
     a.iter().any(|c| c.re.finite() && c.im.finite())
 }
 
-pub const FAMILIES: [&str; 9] = [
-    "uniform", "normal", "constant", "tone_on", "tone_off", "alternating", "spikes", "wide", "impulse",
+pub const FAMILIES: [&str; 13] = [
+    "uniform", "normal", "constant", "tone_on", "tone_off", "alternating", "spikes", "wide", "const_nd", "dc_ripple", "real_only", "ramp",
+    "impulse",
 ];
 
 /// Input vectors by family name; `param` selects the impulse position / tone frequency.
@@ -142,6 +143,14 @@ pub fn gen_input<T: Real>(family: &str, n: usize, param: usize, rng: &mut Rng) -
         "uniform" => (0..n).map(|_| c(2.0 * rng.unit() - 1.0, 2.0 * rng.unit() - 1.0)).collect(),
         "normal" => (0..n).map(|_| c(rng.normal(), rng.normal())).collect(),
         "constant" => vec![c(0.75, -0.5); n],
+        // non-dyadic constant: every partial sum rounds, all in the same direction (the worst case for a running sum)
+        "const_nd" => vec![c(0.3, -0.7); n],
+        // a large DC component with a small ripple
+        "dc_ripple" => (0..n).map(|_| c(0.1 + 1e-3 * (rng.unit() - 0.5), 0.1 + 1e-3 * (rng.unit() - 0.5))).collect(),
+        // purely real data (the common use)
+        "real_only" => (0..n).map(|_| c(2.0 * rng.unit() - 1.0, 0.0)).collect(),
+        // smooth, non-zero mean
+        "ramp" => (0..n).map(|j| c((j as f64 + 0.3) / (n as f64), 1.0 - (j as f64) / (n as f64 + 0.7))).collect(),
         "tone_on" => {
             let f = (param % n.max(1)) as f64;
             (0..n)
